@@ -25,12 +25,14 @@ structure Inv (s : St) : Prop where
   skip0 : s.skipped 0 = 0
   drop0 : s.dropped 0 = 0
   bot : AllStk (fun l => botKind l = .base) s.thr
+  zp : AllStk ZpOK s.thr
 
 theorem Inv.init (n : Nat) : Inv (St.init n) := by
   constructor <;> simp [St.init, tot, totalT, subOf, begunOf]
   · exact ⟨List.nodup_nil, fun _ _ => rfl⟩
   · intro t; exact ⟨FrameOK_base _, by simp [Link], trivial⟩
   · intro t; rfl
+  · intro t; exact ZpOK_base
 
 theorem Inv.frame {s : St} (hI : Inv s) {t : Nat} {f : Frame} {rest : List Frame}
     (hs : norm (s.thr t) = f :: rest) : FrameOK s.sub f := (hs ▸ hI.stk t).1
@@ -54,7 +56,8 @@ theorem Inv.next {s s' : St} {t : Nat} {e : Ev} (hI : Inv s) (h : step s t e = s
     ring := ring_step hI.ring hst
     skip0 := skip0_step hI.skip0 hst
     drop0 := drop0_step hI.drop0 hst
-    bot := bot_step hI.bot hs hst }
+    bot := bot_step hI.bot hs hst
+    zp := zp_step hI.zp hs hst }
 
 theorem Inv.reach {s : St} (h : Reach s) : Inv s :=
   Reach.induct (Inv.init 0) (fun _ _ _ _ _ hI hs => hI.next hs) s h
